@@ -245,13 +245,14 @@ def gen_counts(tier, seed):
                     ents = ["calc", "dm"] if (full or (thorough and variant == "noisy")) else ["calc"]
                     for entry in ents:
                         yield [entry, calc, "dna", ["s1", "s2"], [s1, s2], "array"]
-    # one size further for the estimators whose formula needs all four bases (their first defined and first
-    # boundary inputs sit here)
-    for ms in _count_multisets(cols, S_max + (1 if thorough else 2)):
-        cl = list(ms)
-        rnd.shuffle(cl)
-        for calc in (["tn93", "paralinear", "logdet"] if thorough else ["tn93"]):
-            yield ["calc", calc, "dna", ["s1", "s2"], ["".join(c[0] for c in cl), "".join(c[1] for c in cl)], "array"]
+    # up to sum 6 for the estimators whose formula needs all four bases (their first defined and first boundary
+    # inputs sit there)
+    for size in range(S_max + 1, 7):
+        for ms in _count_multisets(cols, size):
+            cl = list(ms)
+            rnd.shuffle(cl)
+            for calc in (["tn93", "paralinear", "logdet"] if thorough else ["tn93"]):
+                yield ["calc", calc, "dna", ["s1", "s2"], ["".join(c[0] for c in cl), "".join(c[1] for c in cl)], "array"]
 
 
 def gen_triples(tier, seed):
@@ -403,7 +404,7 @@ def _tree_contract(case, rooted):
     dist = {tuple(k): v for k, v in (S.ultrametric_distances(gen_tree) if rooted else S.additive_distances(gen_tree)).items()}
     form = _form_of(entry)
     flips = [((len(order) * 7 + i * 3) % 5) < 2 for i in range(7)]
-    site = f"{'upgma' if rooted else 'nj'}/{entry}/{tags[1]}"
+    site = f"tree/{entry}/{tags[1]}"
     ctx = f"{case}"
     try:
         with warnings.catch_warnings():
@@ -567,7 +568,7 @@ BOUNDED = {
         "bound": "two sequences realising every 4x4 count matrix of sum 1..4 (thorough 1..5): columns in a seeded order, "
                  "with 1-3 columns holding one of -N?RYW interspersed and (sum <= 3, thorough all) also without; 7 "
                  "estimators; calculator object, plus aln.distance_matrix for sum <= 3 (thorough: all noisy ones); "
-                 "sum 6: tn93 (thorough also paralinear, logdet) through the calculator object",
+                 "beyond that up to sum 6: tn93 (thorough also paralinear, logdet) through the calculator object",
         "rule": _EST_RULE, "shards": 16,
     },
     "estimators_triples": {
